@@ -425,12 +425,9 @@ package stringlib
 // The decimal numeral 9223372036854775808 denotes a float, so mininteger is
 // never rendered in decimal by quote (it is written in hexadecimal, which wraps).
 //@ func quote
-//@   prop C17
+//@   prop C17 C04
 //@   arith int
-//@   norte
-//@   nocover
-//@   modifies everything()
-//@   exits any
+//@   modifies nothing
 //@   assert_before_call Itoa: arg0 != -9223372036854775808
 
 // ---------------------------------------------------------------------------
